@@ -1770,6 +1770,30 @@ pub fn gen_c18(r: &mut Rng, id: usize) -> Group {
 // ---------------------------------------------------------------------------------- C19
 
 pub fn gen_c19(r: &mut Rng, id: usize) -> Group {
+    if r.chance(10) {
+        // the same boundary integers printed by the text and csv printers (their own number paths)
+        let ints = value::boundary_ints();
+        let n = r.range(1, 8);
+        let rows: Vec<V> = (0..n)
+            .map(|i| V::Obj(vec![("id".into(), V::Int(i as i128)), ("k".into(), V::Int(*r.pick(&ints))), ("l".into(), V::Arr((0..r.range(1, 3)).map(|_| V::Int(*r.pick(&ints))).collect()))]))
+            .collect();
+        let (bytes, _) = stream_of(r, &rows, false);
+        let mut c = case(format!("C19-{id}-text"));
+        c.spec.style = Some(r.ps(&["text", "csv"]).to_string());
+        c.spec.selects = vec![".k=k".into(), ".id=id".into(), "(first .l)=f".into(), "(last .l)=z".into()];
+        match r.below(4) {
+            0 => c.spec.sorts.push(".id desc".into()),
+            1 => c.spec.unique = true,
+            _ => {}
+        }
+        c.sources.push(stdin_src(bytes));
+        let mut g = Group::new(vec![c]);
+        g.values = rows;
+        g.tag = "ints-text".into();
+        g.nontrivial = true;
+        g.labels.push("kind:ints-text".into());
+        return g;
+    }
     if r.chance(50) {
         // boundary integers through non-arithmetic pipelines and collection functions
         let ints = value::boundary_ints();
@@ -1856,6 +1880,25 @@ pub fn gen_c19(r: &mut Rng, id: usize) -> Group {
 // ---------------------------------------------------------------------------------- C20
 
 pub fn gen_c20(r: &mut Rng, id: usize) -> Group {
+    if r.chance(6) {
+        // an input file that does not exist: the input failed, so the exit status is not 0 and standard error says why
+        let mut c = case(format!("C20-{id}-missing-file"));
+        c.mode = "main".into();
+        c.spec.on_error = Some(r.ps(&["ignore", "panic", "stderr", "stdout"]).to_string());
+        match r.below(4) {
+            0 => c.spec.selects.push("(size .)=n".into()),
+            1 => c.spec.group = Some(None),
+            2 => c.spec.sorts.push(".".into()),
+            _ => {}
+        }
+        c.sources.push(Source { name: Some("no-such-input.json".into()), bytes: vec![] });
+        c.rerr = Some((0, 0));
+        let mut g = Group::new(vec![c]);
+        g.tag = "missing-file".into();
+        g.nontrivial = true;
+        g.labels.push("kind:missing-file".into());
+        return g;
+    }
     let o = GenOpts::default();
     let n = r.range(0, 6);
     let vals: Vec<V> = (0..n).map(|_| value::gen_value(r, &o, 1)).collect();
@@ -2470,6 +2513,36 @@ pub fn oracle(prop: &str, g: &Group, obs: &[Obs]) -> Option<String> {
             for row in parse_rows(&o.out, "\n").ok()? {
                 if get_key(&row, "x").is_some() {
                     return Some(format!("{}: an argument is not a number, yet the result is {}", g.tag, value::render(&row)));
+                }
+            }
+            None
+        }
+        "C19" if g.tag == "ints-text" => {
+            let (c, o) = (&g.cases[0], &obs[0]);
+            if o.res != "ok" {
+                return Some(format!("{}: run gave {} {}", c.id, o.res, o.panic_msg));
+            }
+            let csv = c.spec.style.as_deref() == Some("csv");
+            let text = String::from_utf8_lossy(&o.out).into_owned();
+            let mut lines: Vec<&str> = text.split('\n').filter(|l| !l.is_empty()).collect();
+            if csv && !lines.is_empty() {
+                lines.remove(0); // header
+            }
+            let mut want: Vec<[String; 4]> = g.values.iter().map(|row| {
+                let int = |v: Option<&V>| match v { Some(V::Int(i)) => i.to_string(), _ => String::new() };
+                let l = match get_key(row, "l") { Some(V::Arr(a)) => a.clone(), _ => vec![] };
+                [int(get_key(row, "k")), int(get_key(row, "id")), int(l.first()), int(l.last())]
+            }).collect();
+            if !c.spec.sorts.is_empty() {
+                want.reverse();
+            }
+            if lines.len() != want.len() {
+                return Some(format!("{}: {} rows for {} records", c.id, lines.len(), want.len()));
+            }
+            for (line, w) in lines.iter().zip(&want) {
+                let got: Vec<&str> = line.split(if csv { ", " } else { "\t" }).collect();
+                if got.len() != 4 || got.iter().zip(w.iter()).any(|(a, b)| a != b) {
+                    return Some(format!("{}: the {} printer wrote `{}` for the integers {:?}", c.id, if csv { "csv" } else { "text" }, line, w));
                 }
             }
             None
